@@ -447,7 +447,8 @@ pub fn swarm(prop: Prop, r: &mut Rng, pools: &Pools, corpus_len: usize) -> Swarm
             w.set = 3;
             w.dropengine = 1;
             nops = r.range(8, 40);
-            max_voices = 4;
+            // up to six voices: sums over five or more terms (pairwise / blocked summation schemes differ there)
+            max_voices = 6;
         }
         Prop::C02 => {
             profile = *r.pick(&["steps_only", "finish_heavy", "mixed", "mixed", "many_generators", "engine_churn"]);
